@@ -669,7 +669,10 @@ func c12RealMixed(e *env) error {
 	tree := scratch.Tree{"go.mod": "module example.org/c12m\n\ngo 1.18\n",
 		"p/types.go": "package p\n\ntype In struct{ A int }\ntype Out struct{ A int }\n",
 		"p/iface.go": "package p\n\n// goverter:converter\ntype Converter interface {\n\tM(source In) Out\n}\n",
-		"p/vars.go":  "package p\n\n// goverter:variables\nvar (\n\tV func(source In) Out\n)\n"}
+		"p/vars.go":  "package p\n\n// goverter:variables\nvar (\n\tV func(source In) Out\n)\n",
+		// a converter whose own lines REPEAT lines the command line may carry, each after a line that changes the state in between:
+		// settings are ordered updates, a repeated line is not redundant
+		"p/rep.go": "package p\n\n// goverter:converter\n// goverter:update:ignoreZeroValueField no\n// goverter:update:ignoreZeroValueField:basic\n// goverter:ignoreMissing no\n// goverter:ignoreMissing yes\n// goverter:skipCopySameType no\n// goverter:skipCopySameType\n// goverter:wrapErrors no\n// goverter:wrapErrors\ntype Rep interface {\n\tM(source In) Out\n}\n"}
 	if err := scratch.Write(root, tree); err != nil {
 		return err
 	}
@@ -723,6 +726,9 @@ func c12RealMixed(e *env) error {
 				marker = "variables"
 			}
 			sc := &settingsCase{Vars: vars, CLI: cli, Conv: []string{marker}}
+			if len(raw.Converter.Lines) > 1 {
+				sc.Conv = append([]string{}, raw.Converter.Lines...)
+			}
 			var im *sx.Node
 			if errs[i] != nil {
 				im = lineErrToSx(errs[i], "-", "-")
